@@ -125,16 +125,20 @@ func c12Suffixes(p *an.Prog, r *an.R) {
 			continue
 		}
 		found := false
-		ast.Inspect(d.Decl.Body, func(nd ast.Node) bool {
-			if bl, ok := nd.(*ast.BasicLit); ok && bl.Kind == token.STRING {
-				if s, ok := an.StringConst(d.Pkg.TypesInfo, bl); ok && strings.Contains(strings.ToLower(s), "meta") && strings.HasPrefix(s, ".") {
-					found = true
-					n++
-					r.Check(s == ".meta", "C12.R2", site.pkg+"."+site.fn+"/sidecar-suffix", bl.Pos(), "uses the sidecar suffix .meta", "uses sidecar suffix "+s+" where the other sites use .meta: the sidecar written by one is not found by the other")
+		for _, sd := range calleeDecls(p, d) { // the function itself and helpers split off it
+			ast.Inspect(sd.Decl.Body, func(nd ast.Node) bool {
+				if bl, ok := nd.(*ast.BasicLit); ok && bl.Kind == token.STRING {
+					if s, ok := an.StringConst(sd.Pkg.TypesInfo, bl); ok && strings.Contains(strings.ToLower(s), "meta") && strings.HasPrefix(s, ".") {
+						if !found {
+							n++
+						}
+						found = true
+						r.Check(s == ".meta", "C12.R2", site.pkg+"."+site.fn+"/sidecar-suffix", bl.Pos(), "uses the sidecar suffix .meta", "uses sidecar suffix "+s+" where the other sites use .meta: the sidecar written by one is not found by the other")
+					}
 				}
-			}
-			return true
-		})
+				return true
+			})
+		}
 		if !found {
 			r.Und("C12.R2", site.pkg+"."+site.fn+"/sidecar-suffix", d.Decl.Pos(), "no sidecar suffix literal found in a function that is known to handle the sidecar")
 		}
